@@ -21,8 +21,8 @@ META = {
 THEOREMS = ["Qentem.Props.C01." + t for t in [
     "tables_width_independent", "finder_safe_total", "expr_scan_safe", "render_safe_of_wf",
     "parse_wf_varraw", "render_safe_varraw", "parse_wf_inline", "render_safe_inline",
-    "parse_text", "render_text", "checkLoopVariable_safe", "expr_scan_total", "parse_wf_loops", "render_safe_loops", "finder_facts", "parse_wf_blocks", "render_safe_blocks", "parse_wf", "parse_wf_ok", "render_safe"]]
-OPEN_STATEMENTS = ["Qentem.Props.C01.ParseSafe / RenderSafe as totality statements (the model's recursion fuel 2n+4 / the render fuel is never exhausted): not proved; parse_wf / render_safe show that fuel is the only way the model can fail, and every run of this check observes termination"]
+    "parse_text", "render_text", "checkLoopVariable_safe", "expr_scan_total", "parse_wf_loops", "render_safe_loops", "finder_facts", "parse_wf_blocks", "render_safe_blocks", "parse_wf", "parse_wf_ok", "render_safe", "parse_total", "render_total"]]
+OPEN_STATEMENTS = ["none for the model: ParseSafe / RenderSafe are proved as parse_total / render_total (contents that fit SizeT; the bound check of 487b090 in getValue) - the scanner model returns a well-formed tag list and some render fuel returns a text; that the C++ follows the model is what every run of this check compares"]
 
 # Work-around (vlib/core.py is shared and not edited here): core.classify_fault compares rc < 0
 # before it tests rc == "timeout", which raises TypeError on a timed-out batch.
